@@ -357,10 +357,23 @@ type runInfo struct {
 // writerSpan: the time span in which this invocation ran commands that write below policies/ or to
 // the repository (children: netspoc, git, mv, rm, ln, mkdir, touch) -- taken from the trace, no
 // matter how the script spells its locking.  ok=false: it never did.
+// writerLines: source lines of the commands that have an effect on the database in the model of the
+// script under test -- asked from the driver, i.e. derived from the regenerated program
+// (Cmd.mutating; exec_nonmut/nonmut_writes prove that all other commands leave it alone).  nil when
+// the script is not understood: then the first word of the command decides (children of a fixed list).
+var writerLines map[string]bool
+
+func (r *runInfo) isWriter(i int, gitFn bool) bool {
+	if writerLines != nil {
+		return writerLines[r.Lines[i]]
+	}
+	f := strings.Fields(r.Cmds[i])
+	return len(f) > 0 && f[0] != "flock" && isExternal(r.Cmds[i], gitFn)
+}
+
 func (r *runInfo) writerSpan(gitFn bool) (from, to float64, ok bool) {
-	for i, c := range r.Cmds {
-		f := strings.Fields(c)
-		if len(f) > 0 && f[0] != "flock" && isExternal(c, gitFn) {
+	for i := range r.Cmds {
+		if r.isWriter(i, gitFn) {
 			if !ok {
 				from, ok = r.Times[i], true
 			}
@@ -1446,6 +1459,17 @@ func runC19(ctx *Ctx) *Result {
 		modelStale = true
 		res.Notes = append(res.Notes, "shgen did not understand the script ("+strings.TrimPrefix(u, "0 ")+
 			"): the model is the last understood program and is NOT compared; the oracle on the real tree runs alone")
+	}
+	if !modelStale {
+		writerLines = map[string]bool{}
+		for _, l := range strings.Fields(drv.Ask("?writers")) {
+			writerLines[l] = true
+		}
+		res.Notes = append(res.Notes, fmt.Sprintf("writing commands: %d source lines taken from the regenerated program (Cmd.mutating)", len(writerLines)))
+		if len(writerLines) == 0 {
+			res.Disagree("driver", nil, "the regenerated program has no writing command", "")
+			writerLines = nil
+		}
 	}
 	if ctx.Replay != "" {
 		var sc scenario
